@@ -43,15 +43,16 @@ InitState(fam, L) ==
    f |-> [n \in NameSet(fam, L) |-> IF fam = "v3" /\ n \notin BaseNameSet(fam) THEN "X" ELSE "?"]]
 
 \* the token loop: stops at the first error other than not-supported-metric, which is deferred
-RunLoop(fam, L, toks) ==
+RunLoopFrom(fam, L, st0, toks) ==
   FoldLeft(LAMBDA acc, i :
              IF acc.stop THEN acc
              ELSE LET r == DecodeOne(fam, L, acc.st, toks[i])
                   IN IF r.err = "" THEN [acc EXCEPT !.st = [names |-> r.names, f |-> r.f], !.steps = acc.steps + 1]
                      ELSE IF r.err = "NotSupportMetric" THEN [acc EXCEPT !.last = r.err, !.steps = acc.steps + 1]
                      ELSE [acc EXCEPT !.stop = TRUE, !.err = r.err, !.st = [names |-> r.names, f |-> r.f], !.steps = acc.steps + 1],
-           [st |-> InitState(fam, L), stop |-> FALSE, err |-> "", last |-> "", steps |-> 0],
+           [st |-> st0, stop |-> FALSE, err |-> "", last |-> "", steps |-> 0],
            [i \in 1..Len(toks) |-> i])
+RunLoop(fam, L, toks) == RunLoopFrom(fam, L, InitState(fam, L), toks)
 
 \* completeness checks after the loop
 BaseMissing(fam, st) == \E n \in BaseNameSet(fam) : st.f[n] = "?"
@@ -76,6 +77,36 @@ Decode(fam, L, s) ==
                   THEN [ok |-> FALSE, err |-> "NoEnvironmentalMetrics", steps |-> r.steps]
              ELSE IF fam = "v2" /\ V2Encode(L, r.st) # s THEN [ok |-> FALSE, err |-> "Misordered", steps |-> r.steps]
              ELSE [ok |-> TRUE, err |-> "", steps |-> r.steps]
+
+(***************************************************************************)
+(* Decoding into a USED receiver (outside the listed properties, which     *)
+(* speak of constructor results and nil receivers; modelled as the code    *)
+(* behaves so that a change of this behaviour shows as MODEL-DRIFT): the   *)
+(* names sets and the field values of the earlier decode persist, so a     *)
+(* metric seen before is a same-metric error, and an optional metric the   *)
+(* new vector does not write keeps its old value.                          *)
+(* Returns [ok, err, f, ver].                                              *)
+(***************************************************************************)
+DecodeFrom(fam, L, st0, ver0, s) ==
+  LET parts == Split(s, "/")
+      hp == Split(parts[1], ":")
+  IN IF fam = "v3" /\ (Len(hp) # 2 \/ hp[1] # "CVSS") THEN [ok |-> FALSE, err |-> "InvalidVector", f |-> st0.f, ver |-> ver0]
+     ELSE IF fam = "v3" /\ hp[2] \notin V3Versions THEN [ok |-> FALSE, err |-> "NotSupportVer", f |-> st0.f, ver |-> ver0]
+     ELSE LET r == RunLoopFrom(fam, L, st0, TokensOf(fam, s))
+              v == IF fam = "v3" THEN hp[2] ELSE ver0
+              res(ok, e) == [ok |-> ok, err |-> e, f |-> r.st.f, ver |-> v]
+          IN IF r.stop THEN res(FALSE, r.err)
+             ELSE IF r.last # "" THEN res(FALSE, r.last)
+             ELSE IF BaseMissing(fam, r.st) THEN res(FALSE, "NoBaseMetrics")
+             ELSE IF fam = "v3" /\ (\E n \in DOMAIN r.st.f : r.st.f[n] = "?") THEN res(FALSE, "InvalidValue")
+             ELSE IF fam = "v2" /\ LevelNo(L) >= 2 /\ GroupCount(fam, r.st, "T") \in 1..2 THEN res(FALSE, "NoTemporalMetrics")
+             ELSE IF fam = "v2" /\ LevelNo(L) >= 2 /\ GroupCount(fam, r.st, "T") = 3
+                       /\ (\E n \in Range(GroupNames(fam, "T")) : r.st.f[n] = "?") THEN res(FALSE, "NoTemporalMetrics")
+             ELSE IF fam = "v2" /\ LevelNo(L) = 3 /\ GroupCount(fam, r.st, "E") \in 1..4 THEN res(FALSE, "NoEnvironmentalMetrics")
+             ELSE IF fam = "v2" /\ LevelNo(L) = 3 /\ GroupCount(fam, r.st, "E") = 5
+                       /\ (\E n \in Range(GroupNames(fam, "E")) : r.st.f[n] = "?") THEN res(FALSE, "NoEnvironmentalMetrics")
+             ELSE IF fam = "v2" /\ V2Encode(L, r.st) # s THEN res(FALSE, "Misordered")
+             ELSE res(TRUE, "")
 
 \* refinement of the property layer by the implementation-shaped layer
 DecoderRefinesVectorAt(fam, L, s, D) ==
